@@ -75,19 +75,68 @@ def correspondence(r):
     return cases
 
 
+def code311_roundtrip(r):
+    """Code311 (3.11-3.13): freeze() writes a location table; xdis's line-start routines of 3.11/3.12/3.13 and the three real interpreters
+    must read the mapping back (the 3.13 rule also reports the line-less lead-in as (0, None)).  Offsets are even (code units)."""
+    rnd = random.Random(r.seed * 311 + 19)
+    ms = [(mp, f, cl) for mp, f, cl, k in mappings(rnd, 120 if r.tier == "quick" else 1500) if k in ("wf", "wf-up", "nonzero-start") and mp
+          and all(a[1] != b[1] for a, b in zip(mp, mp[1:])) and all(l > 0 for _, l in mp)]
+    ms = [([(2 * o, l) for o, l in mp], f, 2 * cl + 2) for mp, f, cl in ms]
+    cases = [{"mapping": [list(p) for p in mp], "first": f, "codelen": cl, "as_dict": i % 2 == 0} for i, (mp, f, cl) in enumerate(ms)]
+    res = C.run_impl_op("freeze311", cases, modules=MODS)
+    good = []
+    for c, o in zip(cases, res):
+        r.case(("freeze311", C.digest(c)), nontrivial=len(c["mapping"]) >= 2)
+        r.count("freeze-class:Code311")
+        want = [list(p) for p in c["mapping"]]
+        if "error" in o or "table" not in o:
+            r.violation({"component": "Code311.freeze()", "input": c, "result": o, "why": "freeze() of a well-formed {offset: line} table raised"})
+            return
+        for key in ("fls311", "fls312", "fls313"):
+            got = [p for p in o[key] if p[1] is not None]
+            if got != want:
+                r.violation({"component": "Code311.freeze() / encode_lineno_tab", "input": c, "encoded_table": o["table"], "decoded_by": "xdis findlinestarts " + key[3:],
+                             "decoded": o[key], "expected": want, "why": "the table freeze() wrote does not decode back to the supplied mapping"})
+                return
+        good.append((c, o))
+    for v in ("3.11", "3.12", "3.13"):
+        oc = [{"tab": o["table"], "first": c["first"], "codelen": c["codelen"]} for c, o in good]
+        rc, out, err = C.run_py(ORACLE, host=C.ORACLES[v], stdin=json.dumps(oc), impl=False)
+        rr = json.loads(out.split("@@JSON@@")[1])
+        for (c, o), x in zip(good, rr):
+            fls = x.get("fls")
+            pairs = []
+            if fls:
+                i = 2
+                while i < len(fls):
+                    off = fls[i]
+                    if fls[i + 1] == 0:
+                        i += 2
+                        continue
+                    pairs.append([off, fls[i + 2]]); i += 3
+            if pairs != [list(p) for p in c["mapping"]]:
+                r.violation({"component": "Code311.freeze() / encode_lineno_tab", "input": c, "encoded_table": o["table"], "decoded_by": "CPython " + v + " dis.findlinestarts",
+                             "decoded": x, "expected": c["mapping"], "why": "the real interpreter reads another mapping from the table freeze() wrote"})
+                return
+    r.cov["code311_tables_decoded_by_cpython"] = len(good) * 3
+
+
 def validate_by_cpython(r):
     """The model encoders' tables, decoded by the real interpreters, give back every well-formed mapping."""
     rnd = random.Random(r.seed * 5 + 1)
     n = 200 if r.tier == "quick" else 2500
-    ms = [(mp, f, cl) for mp, f, cl, k in mappings(rnd, n) if k in ("wf", "wf-up") and mp and mp[0][0] == 0
+    ms = [(mp, f, cl) for mp, f, cl, k in mappings(rnd, n) if k in ("wf", "wf-up", "nonzero-start") and mp
           and all(a[1] != b[1] for a, b in zip(mp, mp[1:])) and all(l > 0 for _, l in mp)]
     total = 0
     plan = [("2.7", "encode_lineno_tab_15", True), ("3.6", "encode_lineno_tab_30", False), ("3.7", "encode_lineno_tab_30", False),
             ("3.8", "encode_lineno_tab_30", False), ("3.9", "encode_lineno_tab_30", False), ("3.10", None, False)]
     for v, enc, up in plan:
         sel = [(mp, f, cl) for mp, f, cl in ms if not up or (all(a[1] < b[1] for a, b in zip(mp, mp[1:])) and mp[0][1] >= f)]
+        if enc is not None:
+            # the lnotab formats cannot say "no line before the first entry" (offset 0 always starts co_firstlineno): mappings from offset 0 only
+            sel = [(mp, f, cl) for mp, f, cl in sel if mp[0][0] == 0]
         # 1) ask Coq for the encoded tables
-        terms = [(f"encode_lineno_tab_310 {C.zlit(f)} {cl} {mlit(mp)}" if enc is None else f"{enc} {C.zlit(f)} {mlit(mp)}") for mp, f, cl in sel]
+        terms = [(f"encode_lineno_tab_310_full {C.zlit(f)} {cl} {mlit(mp)}" if enc is None else f"{enc} {C.zlit(f)} {mlit(mp)}") for mp, f, cl in sel]
         out, err = C.coq_eval_term(r.wd, "enc" + v.replace(".", ""), HEADER, "[" + "; ".join(terms) + "]")
         if out is None:
             raise RuntimeError(err)
@@ -118,6 +167,7 @@ def run(r):
         r.violation({"broken": "proof obligation", "theorem_or_tie": "Props/C19.v", "log": r.build_failure_excerpt()}, found_input=False, name="C19-obligation.json")
     try:
         correspondence(r)
+        code311_roundtrip(r)
     except SystemExit:
         raise
     except Exception as e:
